@@ -196,6 +196,9 @@ func (rn *runner) kernelModelRound(procs, gor, iters, npaths int, seed uint64) b
 	rn.res.Distribution["kmodel:releases"] += st.releases
 	rn.res.Distribution["kmodel:waits>=5ms"] += st.waits
 	rn.res.Distribution["kmodel:waits-explained"] += st.waitsExplained
+	rn.res.Distribution["kmodel:exec-replay-clients"] += st.replay.clients
+	rn.res.Distribution["kmodel:exec-replay-events"] += st.replay.events
+	rn.res.Distribution["kmodel:exec-replay-reads"] += st.replay.reads
 	in := map[string]string{"kind": "kmodel", "procs": fmt.Sprint(procs), "goroutines": fmt.Sprint(gor),
 		"iters": fmt.Sprint(iters), "paths": fmt.Sprint(npaths), "seed": fmt.Sprint(seed)}
 	for _, f := range findings {
@@ -211,7 +214,7 @@ func (rn *runner) kernelModelPhase() {
 	if !rn.st {
 		return
 	}
-	rounds, procs, gor, iters := rn.tierSizes("KMODEL", [4]int{3, 5, 3, 60}, [4]int{8, 8, 4, 250})
+	rounds, procs, gor, iters := rn.tierSizes("KMODEL", [4]int{2, 4, 3, 40}, [4]int{6, 6, 4, 120})
 	for r := 0; r < rounds; r++ {
 		if rn.kernelModelRound(procs, gor, iters, 1+r%2, rn.rng.Uint64()%1000000) {
 			break
